@@ -140,7 +140,7 @@ def stub_defined(root, S):
     import xml.etree.ElementTree as ET
     here = os.path.join(os.path.dirname(os.path.abspath(__file__)), 'stubgir')
     todo = [(i.get('name'), i.get('version')) for i in root.findall(S.CORE + 'include')]
-    seen, out = set(), set()
+    seen, out = set(), {}
     while todo:
         n, v = todo.pop()
         f = os.path.join(here, '%s-%s.gir' % (n, v))
@@ -152,7 +152,7 @@ def stub_defined(root, S):
         ns = r.find(S.CORE + 'namespace')
         for el in ns:
             if el.get('name'):
-                out.add('%s.%s' % (n, el.get('name')))
+                out['%s.%s' % (n, el.get('name'))] = el.get('introspectable') != '0'
     return out
 
 
@@ -198,6 +198,8 @@ def lint(root, S, known_external):
             elif '.' in name:
                 if name not in known_external and name not in stub_names and name.split('.')[0] not in ('GLib', 'GObject', 'Gio'):
                     yield ('an introspectable %s refers to %s, which no included namespace defines' % (what, name), owner.get('name'))
+                elif stub_names.get(name) is False:
+                    yield ('an introspectable %s refers to %s, which is introspectable="0" in the included namespace' % (what, name), owner.get('name'))
             else:
                 d = defs.get(name)
                 if d is None:
@@ -391,6 +393,63 @@ def accessor_world(rng, S, ET):
     return r.xml
 
 
+def typed_member_world(rng, S, ET):
+    """structures whose members have the types of callback typedefs, of aliases of them and of definitions of the included namespace
+    Nib, some of which are (or turn out to be) not introspectable: a callback taking a va_list or variable arguments, declared before
+    or after the structure; introspectable="0" records, aliases, enumerations and callbacks of Nib; functions and aliases using them"""
+    from giscanner.sourcescanner import CSYMBOL_TYPE_ELLIPSIS
+    line = [10]
+
+    def at():
+        line[0] += rng.randint(1, 7)
+        return line[0]
+    cbs = [('FooLogV', [S.param('fmt', S.ptr(S.td('gchar'))), S.param('args', S.td('va_list'))]),
+           ('FooPrintf', [S.param('fmt', S.ptr(S.td('gchar'))), S.FS(CSYMBOL_TYPE_ELLIPSIS, None, base_type=None)]),
+           ('FooBigCb', [S.param('v', S.basic('long long'))]),
+           ('FooFine', [S.param('n', S.td('gint'))]),
+           ('FooUsesJmp', [S.param('j', S.ptr(S.td('NibJmp')))])]
+    cb_syms = [S.cbtypedef(n, S.VOID, ps, line=at()) for n, ps in cbs]
+    alias_syms = [S.FS(S.CSYMBOL_TYPE_TYPEDEF, 'FooLogAlias', base_type=S.td('FooLogV'), line=at()),
+                  S.FS(S.CSYMBOL_TYPE_TYPEDEF, 'FooFineAlias', base_type=S.td('FooFine'), line=at()),
+                  S.FS(S.CSYMBOL_TYPE_TYPEDEF, 'FooRawAlias', base_type=S.td('NibRaw'), line=at()),
+                  S.FS(S.CSYMBOL_TYPE_TYPEDEF, 'FooStampAlias', base_type=S.td('NibStamp'), line=at())]
+    ftypes = ['FooLogV', 'FooPrintf', 'FooBigCb', 'FooFine', 'FooUsesJmp', 'FooLogAlias', 'FooFineAlias', 'FooRawAlias', 'FooStampAlias',
+              'NibJmp', 'NibOk', 'NibMode', 'NibTone', 'NibVaMarshal', 'NibNotify', 'NibRaw', 'NibStamp', 'gint']
+    members = []
+    for i, t in enumerate(rng.sample(ftypes, rng.randint(4, 10))):
+        byval = t in ('NibJmp', 'NibOk') and rng.random() < 0.5
+        members.append(S.FS(S.CSYMBOL_TYPE_MEMBER, 'm%d' % i, base_type=S.td(t) if (byval or not t.startswith(('NibJmp', 'NibOk'))) else S.ptr(S.td(t)),
+                            line=at()))
+    rec = [S.FS(S.CSYMBOL_TYPE_TYPEDEF, 'FooBackend', base_type=S.FT(S.CTYPE_STRUCT, '_FooBackend'), line=at()),
+           S.FS(S.CSYMBOL_TYPE_STRUCT, '_FooBackend', base_type=S.FT(S.CTYPE_STRUCT, '_FooBackend', child_list=members), line=at())]
+    funcs, comments = [], []
+    for i in range(rng.randint(3, 8)):
+        t = rng.choice(['NibJmp', 'NibOk', 'NibMode', 'NibTone', 'NibRaw', 'NibStamp', 'NibVaMarshal', 'NibNotify'])
+        name = 'foo_nib_%d' % i
+        shape = rng.choice(['param', 'ret', 'list', 'out'])
+        ptr = t in ('NibJmp', 'NibOk')
+        ct = S.ptr(S.td(t)) if ptr else S.td(t)
+        if shape == 'param':
+            funcs.append(S.func(name, S.VOID, [S.param('v', ct)], line=at()))
+            if t in ('NibVaMarshal', 'NibNotify'):
+                comments.append(('/**\n * %s:\n * @v: (scope call): a callback\n */' % name, '/src/foo.c', 1000 + 10 * i))
+        elif shape == 'ret':
+            funcs.append(S.func(name, ct, [], line=at()))
+            if ptr:
+                comments.append(('/**\n * %s:\n *\n * Returns: (transfer none): it\n */' % name, '/src/foo.c', 1000 + 10 * i))
+        elif shape == 'list':
+            funcs.append(S.func(name, S.VOID, [S.param('l', S.ptr(S.td('GList')))], line=at()))
+            comments.append(('/**\n * %s:\n * @l: (element-type Nib.%s): a list\n */' % (name, t[3:]), '/src/foo.c', 1000 + 10 * i))
+        else:
+            funcs.append(S.func(name, S.VOID, [S.param('o', S.ptr(ct))], line=at()))
+            comments.append(('/**\n * %s:\n * @o: (out)%s: a value\n */' % (name, ' (transfer none)' if ptr else ''), '/src/foo.c', 1000 + 10 * i))
+    groups = [cb_syms, alias_syms, rec, funcs]
+    rng.shuffle(groups)          # the structure before or after the callback types it uses
+    syms = [s_ for g in groups for s_ in g]
+    r = S.run(syms, comments=comments, includes=['GLib', 'GObject', 'Nib'], warnings=False)
+    return r.xml
+
+
 def main(tier, seed):
     ck = Check('C05', tier, seed)
     ck.assumptions += ['declarations are SourceSymbol trees (stub lexer); reference graphs are over aliases, callback types, functions and '
@@ -450,6 +509,11 @@ def main(tier, seed):
             extra.append(('accessor world #%d' % b, accessor_world(rng, S, ET), []))
         except (Exception, SystemExit) as e:      # noqa
             ck.failing_input('the scanner fails on a class with accessor methods: %r' % (e,), dict(world=b))
+    for b in range(15 if tier == 'quick' else 200):
+        try:
+            extra.append(('typed members #%d' % b, typed_member_world(rng, S, ET), []))
+        except (Exception, SystemExit) as e:      # noqa
+            ck.failing_input('the scanner fails on structures with callback-typed members and types of an included namespace: %r' % (e,), dict(world=b))
     for what, xml, incs in extra:
         root = ET.fromstring(xml)
         ck.count_case(dict(world=what), nontrivial=False, kind='linted:' + what.split('#')[0].strip())
